@@ -572,6 +572,7 @@ def check_fsm_lockstep(pid, r):
     for lab in sorted(r.final):
         ev = r.evts(lab)
         sent_since = []
+        prev_seq = -1
         for h in ev:
             if h["evt"] == "EVT_PDU_SENT":
                 sent_since.append(h)
@@ -601,6 +602,11 @@ def check_fsm_lockstep(pid, r):
             # the failed write makes the transport report Evt17, which must then be the next thing the provider sees
             send_failed = bool(want and not got) and any(
                 x["evt"] == "EVT_FSM_TRANSITION" and x["seq"] > h["seq"] and x["fsm_event"] == "Evt17" for x in ev)
+            if want and not got and not send_failed:
+                # ... unless the provider was stopped before it could read the connection again; the simulated
+                # socket records each refused write (same thread, since the previous transition)
+                send_failed = any(x["kind"] == "send_fail" and x["tid"] == h.get("tid") and prev_seq < x["seq"] <= h["seq"] for x in r.hist)
+            prev_seq = h["seq"]
             if got != want and not (want and not got and fault_fired(r)) and not send_failed:
                 out.append(C.v("fsm-effect", "%s/wrong-pdu-sent/%s/%s" % (pid, act, "-".join(map(str, got)) or "none"), "%s: action %s in %s sent PDUs %s, PS3.8 says %s" % (lab, act, sig_cell, got, want)))
             if eff.get("abort_source") is not None and got == want:
